@@ -346,14 +346,21 @@ def _alias_renamed(j, kn):
             return sa == sb and par(ta) == par(tb) and not ta.startswith(('std::', 'core::'))
         return False
 
-    def callees(fn_):
+    def callees(fn_, depth=0, seen=None):
+        # what the body calls; calls of *new* helpers count as what those helpers call (an extracted step)
         out = set()
+        seen = seen if seen is not None else set()
+        seen.add(fn_['name'])
         for g in j['fns']:
             if g['name'] == fn_['name'] or g['name'].startswith(fn_['name'] + '::{closure'):
                 for b in g['blocks']:
                     t = b['term']
                     if t['t'] == 'call':
-                        out.add((t['callee'].get('path') or t['callee'].get('def') or '').split('::')[-1])
+                        cp = t['callee'].get('path') or t['callee'].get('def') or ''
+                        if cp in names and cp not in kn and cp not in seen and depth < 3:
+                            out |= callees(names[cp], depth + 1, seen)
+                        else:
+                            out.add(cp.split('::')[-1])
                     for st in b['stmts']:
                         if st['s'] == 'assign' and st['rv']['r'] == 'bin' and st['rv']['op'] in ('Add', 'Sub', 'Mul', 'Div'):
                             out.add('op:' + st['rv']['op'])
